@@ -251,7 +251,7 @@ def _name_catalogue(tier):
 
 
 @contract(
-    "names_roundtrip", ["C01", "C03"], kind="bounded",
+    "names_roundtrip", ["C01", "C03", "C02"], kind="bounded",
     targets=["rv.modules.module:Module.iff_chunks", "rv.readers.module:ModuleReader.process_SNAM", "rv.readers.sunvox:SunVoxReader.process_NAME",
              "rv.readers.pattern:PatternReader.process_PNME", "rv.readers.module:ModuleReader.process_SMIN"],
     bound="a catalogue of names generated from UTF-8 length-class patterns (every class as filler, every class straddling byte 32 at every offset 26..32, boundary code points of each class); native evaluation",
@@ -285,6 +285,16 @@ def names_roundtrip(H, _):
             H.check("midi_out_name_exact", q.modules[1].midi_out_name == (name if name else None), witness=name)
             snam = [c[1] for c in F.parse_stream(data) if bytes(c[0]) == b"SNAM"][1]
             H.check("SNAM_is_spec_encoding", snam == F.enc_name32(name), witness=name)
+            # the stand-alone contexts (C02): .sunsynth round trip and clone()
+            from rv.synth import Synth
+
+            f = io.BytesIO()
+            Synth(m).write_to(f)
+            m2 = read_sunvox_file(io.BytesIO(f.getvalue())).module
+            H.check("synth_module_name_is_longest_fitting_prefix", m2.name == want, witness={"name": name, "got": m2.name, "want": want})
+            m3 = m.clone()
+            H.check("clone_module_name_is_longest_fitting_prefix", m3.name == want, witness={"name": name, "got": m3.name, "want": want})
+            H.check("clone_midi_out_name_exact", m3.midi_out_name == (name if name else None), witness=name)
         except Exception as e:  # noqa
             H.check("written_file_loads", False, witness={"name": name, "error": f"{type(e).__name__}: {e}"})
 
